@@ -10,6 +10,8 @@ it: a static typing of registers (`RegTyping`: which script the process held in 
 the control shape of processes, and the faithfulness of stored await answers (`TInv`).
 -/
 namespace QM.Sys
+set_option linter.unusedSectionVars false
+variable [Cfg]
 
 /-! ### static side -/
 
